@@ -460,6 +460,15 @@ class assert_group(AssertionFeedback, FeedbackGroup):
             elif feedback._status == FeedbackStatus.ERROR:
                 self.errors.append(feedback)
             self.all_feedback.append(feedback)
+        elif isinstance(feedback, assert_group):
+            # A group inside this one: its verdict is one more result here
+            if feedback._status == FeedbackStatus.ACTIVE:
+                self.failures.append(feedback)
+            elif feedback._status == FeedbackStatus.ERROR:
+                self.errors.append(feedback)
+            else:
+                self.successes.append(feedback)
+            self.all_feedback.append(feedback)
         feedback.muted = True
         feedback.unscored = True
 
@@ -484,6 +493,8 @@ class assert_group(AssertionFeedback, FeedbackGroup):
         # TODO: left target, right target, expected_verb
         groups = {}
         for feedback in self.all_feedback:
+            if not isinstance(feedback, RuntimeAssertionFeedback):
+                continue
             left = feedback.fields['left_boxed']
             right = feedback.fields['right_boxed']
             verb = feedback.fields['aggregate_verb']
